@@ -45,6 +45,8 @@ pub fn groups_for(prop: Prop) -> &'static [&'static str] {
         Prop::C19 => &["noalloc"],
         Prop::C12 => &["general", "fixed", "align", "grid", "empty"],
         Prop::C10 => &["general"],
+        // instrumented user backends and Heap under the instrumented allocator (the quantifier of C05)
+        Prop::C05 => &["general"],
         Prop::C17 => &["general", "empty"],
         Prop::C18 => &["general"],
         Prop::C04 => &["general", "fixed", "plain"],
